@@ -50,7 +50,7 @@ REAL_VS_STUB = {
     'real': ['optree engine serialization + registry re-binding', 'CPython pickle / copy', 'a real second interpreter process for restart histories'],
     'stub_or_simulator_owned': ['registration log and its drift', 'custom flatten/unflatten callables', 'GC timing', 'which history happens between dump and load'],
 }
-EXPECTED_PROBES = ('derived:wide', 'rejected-load-before', 'early-load-before-drift', 'history:drift-reregister-other', 'derived:child', 'derived:compose', 'derived:ctor', 'history:same-process', 'history:gc-between', 'history:drift-unregister', 'history:drift-reregister-same',
+EXPECTED_PROBES = ('producer:2', 'producer:3', 'derived:wide', 'rejected-load-before', 'early-load-before-drift', 'history:drift-reregister-other', 'derived:child', 'derived:compose', 'derived:ctor', 'history:same-process', 'history:gc-between', 'history:drift-unregister', 'history:drift-reregister-same',
                    'history:drift-global-only', 'history:restart-same', 'history:restart-missing', 'history:restart-other-ns',
                    'load:refused', 'load:ok', 'mentions-custom', 'mode:insertion', 'proto:2', 'proto:3', 'proto:4', 'proto:5')
 
@@ -137,8 +137,20 @@ def run_job(job, io):
         mode_ns = (None, None, ns, '')[tape.draw(4, 'mode')]
         load_mode_ns = (None, None, ns, '')[tape.draw(4, 'load-mode')]
         proto = 2 + tape.draw(4, 'proto')
+        producer = tape.draw(5, 'producer')
         with mode_cm(mode_ns):
             leaves, spec = optree.tree_flatten(tree, none_is_leaf=nil, namespace=ns)
+            # the treespec that gets pickled comes from any of the entry points that produce one: they run different engine
+            # code (with-path twin, accessor route, constructor) and must all produce a treespec that survives pickling
+            if producer == 1:
+                spec = optree.tree_structure(tree, none_is_leaf=nil, namespace=ns)
+            elif producer == 2:
+                spec = optree.tree_flatten_with_path(tree, none_is_leaf=nil, namespace=ns)[2]
+            elif producer == 3:
+                spec = optree.tree_flatten_with_accessor(tree, none_is_leaf=nil, namespace=ns)[2]
+            elif producer == 4:
+                spec = optree.tree_structure(optree.tree_unflatten(spec, leaves), none_is_leaf=nil, namespace=ns)
+            probes['producer:%d' % producer] += 1
             eff_insertion = optree._C.is_dict_insertion_ordered(ns)
         # sometimes pickle a treespec DERIVED from the flattened one (sub-spec, composition, constructor): those have no
         # "fresh flatten" to compare with, only the original
